@@ -69,6 +69,24 @@ def _expr(rng, depth, maxl, big=None):
                 p2 = -p1
             a, va = '%s %s nfrombig' % (N.limbs_tok(p1), N.limbs_tok(q)), N.frac(p1, q)
             b, vb = '%s %s nfrombig' % (N.limbs_tok(p2), N.limbs_tok(q)), N.frac(p2, q)
+        elif rng.random() < 0.12:
+            # the second operand is DERIVED from the first: its negative, its reciprocal, itself (results cancel to exactly
+            # zero / one, or double / square)
+            a, va = _expr(rng, depth - 1, maxl, big)
+            how = rng.choice(['nneg', 'nflip', 'nclone', 'nminus'])
+            vb = N.F.neg(va) if how in ('nneg', 'nminus') else (N.F.flip(va) if how == 'nflip' else va)
+            return_script = '%s dup %s' % (a, how)
+            op = rng.choice(['nadd', 'nmul', 'naddas', 'nmulas'])
+            if rng.random() < 0.5:
+                return_script += ' swap'
+            v = N.F.add(va, vb) if op in ('nadd', 'naddas') else N.F.mul(va, vb)
+            if va is not None and vb is not None and (va.numerator.bit_length() + vb.denominator.bit_length() > 2 * BITCAP
+                                                      or va.denominator.bit_length() + vb.denominator.bit_length() > 2 * BITCAP
+                                                      or va.numerator.bit_length() + vb.numerator.bit_length() > 2 * BITCAP):
+                big[0] = True
+            if _too_big(v):
+                big[0] = True
+            return '%s %s' % (return_script, op), v
         else:
             a, va = _expr(rng, depth - 1, maxl, big)
             b, vb = _expr(rng, depth - 1, maxl, big)
